@@ -1176,7 +1176,11 @@ func (root *Root) AddEvent(id string, event interface{}) (cnt int, err error) {
 	root.subLock.Lock()
 	for _, s := range root.subscriptions {
 		if s.sub.Match(id) {
-			result, ea2 := root.resolve(event, vars, s.field, s.field.ConType, MaxResolveDepth)
+			sv := vars
+			if s.vars != nil {
+				sv = s.vars // the variables of the subscription request
+			}
+			result, ea2 := root.resolve(event, sv, s.field, s.field.ConType, MaxResolveDepth)
 			ea = append(ea, ea2...)
 			cnt++
 			if err = s.sub.Send(result); err != nil {
